@@ -116,7 +116,7 @@ class BufferedReader:
 
         max_size = self._max_bytes_remaining + self._buffer_len - self._buffer_pos
 
-        if size is None or size == -1 or size > max_size:
+        if size is None or size < 0 or size > max_size:
             return max_size
         return size
 
